@@ -16,11 +16,17 @@ from .pool_theory import K_OTHER, L_ECB, PoolTheory, PView, TRUSTED
 from .pool_units import no_exit
 
 UNITS: List[Unit] = []
+QUEUE_TRUSTED = [
+    "asyncio.Queue: NOT assumed - get() takes exactly one item or raises without taking one, task_done() decrements the unfinished counter (ValueError at 0), put adds one item and one unfinished, join() returns exactly when the counter reached 0: verified from the interpreter's own asyncio/queues.py by unit asyncio.queues.Queue (relative to the Future state machine, collections.deque and the Event contract verified in asyncio.locks.Event)",
+    "the `async with` statement: __aexit__ runs exactly once on every exit of the block iff __aenter__ returned (Python language rule)",
+    "nobody else calls task_done() on the queue; cooperative atomicity; mathematical integers",
+]
+
 
 
 def unit(name, props, functions, factory):
     def deco(fn):
-        UNITS.append(Unit(name, fn, props, functions, theory_factory=factory, trusted=TRUSTED))
+        UNITS.append(Unit(name, fn, props, functions, theory_factory=factory, trusted=QUEUE_TRUSTED if name.startswith("queue_context") else TRUSTED))
         return fn
 
     return deco
@@ -244,6 +250,8 @@ class QueueTheory(Theory):
     def lemma(st: St):
         """unfinished == items not yet taken + blocks entered and not exited"""
         return st.sh["unfinished"].t == st.sh["items"].t + st.sh["open_blocks"].t
+
+
 
 
 @unit("queue_context.Queue", ("C20",), ["queue_context.Queue.item_processed", "queue_context.Queue.__aenter__", "queue_context.Queue.__aexit__"], lambda: QueueTheory())
